@@ -72,8 +72,13 @@ def finish(prop, tier, level, coverage, violations, assumptions, t0, seed=0):
             new.append(v)
     for kid, (k, v) in sorted(known_hit.items()):
         print("KNOWN-FINDING: property=%s %s [%s]" % (prop, k["what"], kid))
-    for v in new:
+    for i, v in enumerate(new):
         path = write_replay(prop, v)
+        if i == 12:
+            print("... and %d more distinct violation classes (replay files written)"
+                  % (len(new) - 12))
+        if i >= 12:
+            continue
         print("VIOLATION property=%s replay=%s" % (prop, path))
         print("  class=%s config=%s" % (v.klass, v.config_label))
         print("  %s" % (v.message,))
